@@ -21,6 +21,9 @@ def extra(tier, seed, rng, res, broken):
         if o.count('sgd:') >= 2: res.nontrivial.add('race ' + c)
         if v != 'ok' and ('global-default' in v or 'set_global_default' in v or 'PANIC' in v or 'DEADLOCK' in v):
             res.spec_failures.append(('race', c, o, 'judge ' + v))
+    # the live-scope counter: threads opening / using / closing scopes together (see stressgen)
+    from checks import stressgen
+    stressgen.stress_phase('scopes', tier, res, broken, seed)
 
 def gen(rng, tier):
     n = 150 if tier == 'quick' else 3000
@@ -51,18 +54,21 @@ PROPERTY = {
                 'closed by unwinding and scopes used before the global default existed (the F1 regression). Interleaved: a transition system whose steps are the atomic operations of set_global_default (election, write, publish), '
                 'parametrised by facts extracted from dispatch.rs on every run (global_code_facts), for ANY number of racing callers and EVERY schedule: at most one call returns Ok (global_once_interleaved), a returned Ok means every later '
                 'read yields that collector (installed_is_default), readers never see a half-installed one (reader_never_sees_half_installed); with a load-then-store election two callers both succeed (election_witness). '
-                'Racing callers on real threads are run under enumerated schedules (yield hooks) and judged.',
+                'Racing callers on real threads are run under enumerated schedules (yield hooks) and judged. The live-scope counter that selects get_default\'s fast path: a transition system over its atomic operations, '
+                'parametrised by whether an open is ONE fetch_add (scope_counter_code_facts, extracted from dispatch.rs), any threads, every schedule: counter = scopes live (scope_counter_exact), so the fast path is taken only with none live (fast_path_sound); '
+                'with load-then-store an open is lost (scope_counter_witness). Real threads released together open, use and close scopes (h_stress), every emission must reach its own scope.',
         'note': 'Trusted: Lean kernel; axioms propext/Classical.choice/Quot.sound; the history model is sequential (set_global_default\'s steps taken together); the interleaved model covers set_global_default / get_global only, at sequential consistency; '
                 'nested get_default inside collector callbacks (can_enter=false) outside the quantifier; the model is of the code AFTER the fix: commit for F1.',
         'technique': 'Lean 4 proof (simulation relation + induction over histories) of a hand-written model, correspondence-checked against the real crate',
     },
-    'lean_module': 'TracingModel.Props.C02G',
-    'leanchecker_modules': ['TracingModel.Props.C02'],
-    'extra_bins': ['h_race'],
+    'lean_module': 'TracingModel.Props.C02A',
+    'leanchecker_modules': ['TracingModel.Props.C02', 'TracingModel.Props.C02G'],
+    'extra_bins': ['h_race', 'h_stress'],
     'namespace': 'C02',
-    'units': ['GlobalInit'],
+    'units': ['GlobalInit', 'AtomicCounts'],
     'required_theorems': ['C02.current_is_innermost', 'C02.lifo_restore', 'C02.frame', 'C02.global_once', 'C02.rel_reachable',
-                          'C02.global_code_facts', 'C02.global_once_interleaved', 'C02.installed_is_default', 'C02.reader_never_sees_half_installed', 'C02.election_witness'],
+                          'C02.global_code_facts', 'C02.global_once_interleaved', 'C02.installed_is_default', 'C02.reader_never_sees_half_installed', 'C02.election_witness',
+                          'C02.scope_counter_code_facts', 'C02.scope_counter_exact', 'C02.fast_path_sound', 'C02.scope_counter_witness'],
     'streams': [_st],
     'rule': 'one case = one history run in a fresh process: up to 4 threads, nested set_default scopes closed normally or by a caught panic (unwinding through 1..k guards), '
             'set_global_default attempts at any point, emissions everywhere; corpus includes the F1 witness (scope used before the global default existed, other thread holding a scope); '
